@@ -161,7 +161,7 @@ fn main() {
         // auxiliary coverage-guided campaign: the `ops` target decodes bytes into this property's
         // structured cases and runs the same oracles
         ctx.watchdog.limit_s.store(900, std::sync::atomic::Ordering::Relaxed);
-        gvlib::fuzzrun::ops_campaign(&mut ctx, &prop, 1_600_000, 16);
+        gvlib::fuzzrun::ops_campaign(&mut ctx, &prop, 640_000, 16);
     }
     std::process::exit(ctx.finish());
 }
